@@ -45,7 +45,9 @@ Then write a demonstration: a NEW test file named zz_demo_test.go (package claus
 you put it in; test function names must start with TestDemo) that uses only the public API (or package-internal
 API if it lives in that package) and
   - FAILS with your change applied, and
-  - PASSES on the original code (check with `git stash` / `git stash pop`, or `git diff > p; git apply -R p` ...).
+  - PASSES on the original code (check with `git diff > /tmp/<yourname>.p; git apply -R /tmp/<yourname>.p; ...; git apply
+    /tmp/<yourname>.p` - do NOT use `git stash`: the stash is shared between all worktrees of this repository and other
+    people are working in sibling worktrees right now).
 The demo must assert the property's promise itself (e.g. compare with the value the property prescribes), not an
 implementation detail. It must be deterministic and finish within 60 s.
 
